@@ -10,6 +10,8 @@ package actionlint
 import (
 	"fmt"
 	"regexp"
+
+	"gopkg.in/yaml.v3"
 	"strings"
 	"testing"
 )
@@ -23,7 +25,37 @@ type c05Ref struct {
 
 var c05UndefRe = regexp.MustCompile(`^property "([^"]+)" is not defined in object type`)
 
+var (
+	c05PlaceholderRe = regexp.MustCompile(`\$\{\{.*?\}\}`)
+	c05CtxDotRe      = regexp.MustCompile(`(?i)\b(steps|needs|matrix|inputs|secrets|jobs)\.([A-Za-z_][A-Za-z0-9_-]*)`)
+	c05OutputsDotRe  = regexp.MustCompile(`(?i)\.(outputs)\.([A-Za-z_][A-Za-z0-9_-]*)`)
+)
+
+// c05IndexForm rewrites every reference inside the placeholders of src from dotted to index
+// spelling (steps.S1.outputs.O -> steps['S1'].outputs['O']): resolution by scope is the same.
+func c05IndexForm(src string) string {
+	return c05PlaceholderRe.ReplaceAllStringFunc(src, func(ph string) string {
+		ph = c05CtxDotRe.ReplaceAllString(ph, "$1['$2']")
+		return c05OutputsDotRe.ReplaceAllString(ph, ".$1['$2']")
+	})
+}
+
 func c05Judge(r *vReport, family, desc, src string, refs []c05Ref, ignoreKinds map[string]bool) {
+	c05JudgeOne(r, family, desc, src, refs)
+	// the same workflow with every reference in index spelling (skipped where the quotes of the
+	// index spelling do not fit the YAML scalar the placeholder stands in)
+	if alt := c05IndexForm(src); alt != src && !strings.Contains(family, "index-form") {
+		var probe any
+		if yaml.Unmarshal([]byte(alt), &probe) == nil {
+			c05JudgeOne(r, family+":index-form", desc, alt, refs)
+		} else {
+			n, _ := r.Extra["sum_index_form_skipped_not_yaml"].(float64)
+			r.Extra["sum_index_form_skipped_not_yaml"] = n + 1
+		}
+	}
+}
+
+func c05JudgeOne(r *vReport, family, desc, src string, refs []c05Ref) {
 	res := vLint(src, nil)
 	r.Evaluations++
 	r.Transitions++
@@ -39,7 +71,7 @@ func c05Judge(r *vReport, family, desc, src string, refs []c05Ref, ignoreKinds m
 			if d.Line != ref.Line {
 				continue
 			}
-			if m := c05UndefRe.FindStringSubmatch(d.Msg); m != nil && m[1] == ref.Name {
+			if m := c05UndefRe.FindStringSubmatch(d.Msg); m != nil && strings.ToLower(m[1]) == ref.Name { // the index spelling echoes the name as written
 				reported = true
 			}
 		}
@@ -488,94 +520,121 @@ func c05MatrixAcrossJobs(r *vReport, idx *int64) {
 func c05InputsSecrets(r *vReport, idx *int64) {
 	for call := 0; call < 2; call++ {
 		for dispatch := 0; dispatch < 2; dispatch++ {
-			for secretsDecl := 0; secretsDecl < 3; secretsDecl++ { // 0: no secrets section, 1: declares sa, 2: empty secrets section is not valid YAML-wise; use 1 secret + different name
-				if call == 0 && secretsDecl > 0 {
+			for order := 0; order < 2; order++ { // 0: workflow_dispatch written before workflow_call, 1: after it
+				if order == 1 && (call == 0 || dispatch == 0) {
 					continue
 				}
-				if secretsDecl == 2 {
-					continue
-				}
-				*idx++
-				if !r.Mine(*idx) {
-					continue
-				}
-				var b strings.Builder
-				line := 1
-				w := func(s string) { b.WriteString(s + "\n"); line++ }
-				w("on:")
-				w("  push:")
-				if dispatch == 1 {
-					w("  workflow_dispatch:")
-					w("    inputs:")
-					w("      din:")
-					w("        type: string")
-				}
-				if call == 1 {
-					w("  workflow_call:")
-					w("    inputs:")
-					w("      cin:")
-					w("        type: string")
-					if secretsDecl == 1 {
-						w("    secrets:")
-						w("      sa:")
-						w("        required: true")
+				for secretsDecl := 0; secretsDecl < 3; secretsDecl++ { // 0: no secrets section, 1: declares sa, 2: empty secrets section is not valid YAML-wise; use 1 secret + different name
+					if call == 0 && secretsDecl > 0 {
+						continue
 					}
+					if secretsDecl == 2 {
+						continue
+					}
+					*idx++
+					if !r.Mine(*idx) {
+						continue
+					}
+					var b strings.Builder
+					line := 1
+					w := func(s string) { b.WriteString(s + "\n"); line++ }
+					w("on:")
+					w("  push:")
+					var refs []c05Ref
+					wDispatch := func() {
+						w("  workflow_dispatch:")
+						w("    inputs:")
+						w("      din:")
+						w("        type: string")
+					}
+					if dispatch == 1 && order == 0 {
+						wDispatch()
+					}
+					if call == 1 {
+						w("  workflow_call:")
+						w("    inputs:")
+						w("      cin:")
+						w("        type: string")
+						// default values of call inputs see the dispatch inputs (wherever that event is
+						// written) and the call inputs declared before them
+						for _, d := range []struct {
+							expr, name string
+							defined    bool
+							what       string
+						}{
+							{"inputs.DIN", "din", dispatch == 1, "call default: inputs.<dispatch input>"},
+							{"inputs.Cin", "cin", true, "call default: inputs.<earlier call input>"},
+							{"inputs.iundef", "iundef", false, "call default: inputs.<undeclared>"},
+						} {
+							w("      cdef" + d.name + ":")
+							w("        type: string")
+							refs = append(refs, c05Ref{line, d.name, d.defined, d.what})
+							w("        default: ${{ " + d.expr + " }}")
+						}
+						if secretsDecl == 1 {
+							w("    secrets:")
+							w("      sa:")
+							w("        required: true")
+						}
+						w("    outputs:")
+						w("      wo1:")
+						refOut1 := line
+						w("        value: ${{ jobs.J.outputs.JO }}")
+						w("      wo2:")
+						refOut2 := line
+						w("        value: ${{ jobs.j.outputs.jundef }}")
+						w("      wo3:")
+						refOut3 := line
+						w("        value: ${{ jobs.jnone.outputs.x }}")
+						defer func(l1, l2, l3 int) {}(refOut1, refOut2, refOut3)
+						_ = refOut1
+					}
+					if dispatch == 1 && order == 1 {
+						wDispatch()
+					}
+					w("jobs:")
+					w("  j:")
+					w("    runs-on: ubuntu-latest")
 					w("    outputs:")
-					w("      wo1:")
-					refOut1 := line
-					w("        value: ${{ jobs.J.outputs.JO }}")
-					w("      wo2:")
-					refOut2 := line
-					w("        value: ${{ jobs.j.outputs.jundef }}")
-					w("      wo3:")
-					refOut3 := line
-					w("        value: ${{ jobs.jnone.outputs.x }}")
-					defer func(l1, l2, l3 int) {}(refOut1, refOut2, refOut3)
-					_ = refOut1
-				}
-				w("jobs:")
-				w("  j:")
-				w("    runs-on: ubuntu-latest")
-				w("    outputs:")
-				w("      jo: v")
-				w("    steps:")
-				var refs []c05Ref
-				add := func(expr, name string, defined bool, what string) {
-					refs = append(refs, c05Ref{line, name, defined, what})
-					w("      - run: echo ${{ " + expr + " }}")
-				}
-				anyInputs := call == 1 || dispatch == 1
-				if anyInputs {
-					add("inputs.DIN", "din", dispatch == 1, "inputs.<dispatch input>")
-					add("inputs.Cin", "cin", call == 1, "inputs.<call input>")
-					add("inputs.iundef", "iundef", false, "inputs.<undeclared>")
-				}
-				if call == 1 && secretsDecl == 1 {
-					add("secrets.SA", "sa", true, "secrets.<declared>")
-					add("secrets.sundef", "sundef", false, "secrets.<undeclared>")
-					add("secrets.GITHUB_TOKEN", "github_token", true, "secrets.<automatic>")
-					add("secrets.actions_step_debug", "actions_step_debug", true, "secrets.<automatic>")
-					add("secrets.ACTIONS_RUNNER_DEBUG", "actions_runner_debug", true, "secrets.<automatic>")
-				} else {
-					add("secrets.anything", "anything", true, "secrets.<no declaration>")
-				}
-				src := b.String()
-				if call == 1 {
-					// lines of the workflow_call outputs values
-					lines := strings.Split(src, "\n")
-					for i, l := range lines {
-						switch {
-						case strings.Contains(l, "jobs.J.outputs.JO"):
-							refs = append(refs, c05Ref{i + 1, "jo", true, "jobs.<job>.outputs.<declared>"})
-						case strings.Contains(l, "jobs.j.outputs.jundef"):
-							refs = append(refs, c05Ref{i + 1, "jundef", false, "jobs.<job>.outputs.<undeclared>"})
-						case strings.Contains(l, "jobs.jnone.outputs.x"):
-							refs = append(refs, c05Ref{i + 1, "jnone", false, "jobs.<undefined job>"})
+					w("      jo: v")
+					w("    steps:")
+					add := func(expr, name string, defined bool, what string) {
+						refs = append(refs, c05Ref{line, name, defined, what})
+						w("      - run: echo ${{ " + expr + " }}")
+					}
+					anyInputs := call == 1 || dispatch == 1
+					if anyInputs {
+						add("inputs.DIN", "din", dispatch == 1, "inputs.<dispatch input>")
+						add("inputs.Cin", "cin", call == 1, "inputs.<call input>")
+						add("inputs.iundef", "iundef", false, "inputs.<undeclared>")
+					}
+					if call == 1 && secretsDecl == 1 {
+						add("secrets.SA", "sa", true, "secrets.<declared>")
+						add("secrets.sundef", "sundef", false, "secrets.<undeclared>")
+						add("secrets.GITHUB_TOKEN", "github_token", true, "secrets.<automatic>")
+						add("secrets.actions_step_debug", "actions_step_debug", true, "secrets.<automatic>")
+						add("secrets.ACTIONS_RUNNER_DEBUG", "actions_runner_debug", true, "secrets.<automatic>")
+					} else {
+						add("secrets.anything", "anything", true, "secrets.<no declaration>")
+					}
+					src := b.String()
+					if call == 1 {
+						// lines of the workflow_call outputs values
+						lines := strings.Split(src, "\n")
+						for i, l := range lines {
+							switch {
+							case strings.Contains(l, "jobs.J.outputs.JO"):
+								refs = append(refs, c05Ref{i + 1, "jo", true, "jobs.<job>.outputs.<declared>"})
+							case strings.Contains(l, "jobs.j.outputs.jundef"):
+								refs = append(refs, c05Ref{i + 1, "jundef", false, "jobs.<job>.outputs.<undeclared>"})
+							case strings.Contains(l, "jobs.jnone.outputs.x"):
+								refs = append(refs, c05Ref{i + 1, "jnone", false, "jobs.<undefined job>"})
+							}
 						}
 					}
+					desc := fmt.Sprintf("call=%d dispatch=%d dispatch-after-call=%d secrets=%d", call, dispatch, order, secretsDecl)
+					c05Judge(r, "inputs-secrets-jobs", desc, src, refs, nil)
 				}
-				desc := fmt.Sprintf("call=%d dispatch=%d secrets=%d", call, dispatch, secretsDecl)
-				c05Judge(r, "inputs-secrets-jobs", desc, src, refs, nil)
 			}
 		}
 	}
